@@ -88,6 +88,7 @@ class Contract:
         self.lemmas = {l.id: l for l in lemmas}
         self.facts = list(facts)  # lemma instances offered to every obligation of a path where they can be evaluated
         self.stop_after = None  # cut point: verification of the function ends after this statement (text prefix)
+        self.allow_unordered = False  # iterate set-valued expressions in one fixed order (justified by an audit obligation named in the note)
         self.opaque = {}  # callee text -> {"ret": ..., "effect": bool}: calls the verifier does not look into (logged)
 
 
@@ -394,6 +395,7 @@ def verify_function(contract, registry, only_cases=None):
         eng.spec_defs = contract.defs
         eng.stop_after = contract.stop_after
         eng.opaque = contract.opaque
+        eng.allow_unordered = contract.allow_unordered
         fors = sorted((n for n in ast.walk(node) if isinstance(n, ast.For)), key=lambda n: (n.lineno, n.col_offset))
         eng.loop_ordinals = {id(n): k + 1 for k, n in enumerate(fors)}
         eng.ghost_hooks = contract.ghosts
